@@ -26,7 +26,7 @@ import (
 // C06 harness: the real StreamForwarder (default mode) / handleStream's LCM branch between an in-memory initiator stream
 // and an in-memory source stream, inside a synctest bubble.
 //
-//	N default|lcm ignoreclose=0|1 [openblock=1|closewedge=1]    new scenario (openblock: opening the source stream blocks; closewedge: CloseSend on it never returns by itself)
+//	N default|lcm ignoreclose=0|1 [openblock=1|closewedge=1|twin=1]    new scenario (openblock: opening the source stream blocks; closewedge: CloseSend on it never returns by itself)
 //	s <id> | su | se | sx             the source sends a message / an unknown kind / EOF / an error
 //	i <id> | iu | ie | ix | ic        the initiator sends a sync state / unknown kind / EOF / error / cancels its context
 //	fi | fs                           from now on Send to the initiator / to the source fails
@@ -66,6 +66,38 @@ func vfwScenario(t *testing.T, lines []string, out func(string)) {
 			log.NewNoopLogger(), scc, LCMParameters{LCM: 12, TargetShardCount: 4}, RoutingParameters{}, client, client, nil, []string{"inbound"}, context.Background())
 	}()
 	synctest.Wait()
+	for _, opt := range f0[2:] {
+		if opt == "twin=1" {
+			// a second pass-through stream for the same pair of shards is up at the same time (the initiator reconnected, or two
+			// initiator shards map to one source shard) and ends first: its end must not disturb this one
+			client2 := &vfAdminClient{}
+			ss2 := newVfServerStream(md)
+			ret2 := make(chan struct{})
+			go func() {
+				defer close(ret2)
+				defer ss2.cancel()
+				scc := config.ShardCountConfig{}
+				if mode == "lcm" {
+					scc.Mode = config.ShardCountLCM
+				}
+				_ = handleStream(ss2, md.Copy(), history.ClusterShardID{ClusterID: 2, ShardID: 3}, history.ClusterShardID{ClusterID: 1, ShardID: 2},
+					log.NewNoopLogger(), scc, LCMParameters{LCM: 12, TargetShardCount: 4}, RoutingParameters{}, client2, client2, nil, []string{"inbound"}, context.Background())
+			}()
+			synctest.Wait()
+			if cs2 := client2.lastStream(); cs2 != nil {
+				cs2.recv <- vfItem[vfResp]{val: &vfResp{Attributes: &adminservice.StreamWorkflowReplicationMessagesResponse_Messages{
+					Messages: &replicationv1.WorkflowReplicationMessages{ExclusiveHighWatermark: 1}}}}
+				synctest.Wait()
+				cs2.recv <- vfItem[vfResp]{err: io.EOF}
+			}
+			synctest.Wait()
+			select {
+			case <-ret2:
+			case <-time.After(10 * time.Second):
+				out("TWIN stuck")
+			}
+		}
+	}
 	cs := client.lastStream()
 	status1 := func() string {
 		ret, canc, closed := false, false, false
